@@ -28,7 +28,7 @@ def _names_probe():
             return th()
         except TypeError as e:
             m = str(e)
-            return "positional-only" if "positional-only" in m else "unexpected-keyword" if "unexpected keyword" in m else "AMBIGUOUS" if m.startswith("Ambiguous") else "NOMETHOD" if m.startswith("No method") else "TypeError"
+            return "positional-only" if "positional-only" in m else "unexpected-keyword" if "unexpected keyword" in m else "AMBIGUOUS" if __import__("_errs").amb(m) else "NOMETHOD" if __import__("_errs").nomethod(m) else "TypeError"
         except Exception as e:
             return type(e).__name__
 
@@ -119,7 +119,7 @@ def main():
             try:
                 res.append(ov(c()))
             except TypeError as e:
-                res.append("AMBIGUOUS" if str(e).startswith("Ambiguous") else "NOMETHOD")
+                res.append("AMBIGUOUS" if __import__("_errs").amb(str(e)) else "NOMETHOD")
         outs.append(res)
     if outs[0] != outs[1] or outs[0] != ["ref2", "ref3", "object"]:
         failing.append(dict(name="registration_order_independent[deferred_references]", n_violations=1, violations=[dict(order_a=outs[0], order_b=outs[1], expected=["ref2", "ref3", "object"])]))
